@@ -348,6 +348,18 @@ Section Search.
     intros script. rewrite tuner_run_refit by reflexivity. reflexivity.
   Qed.
 
+  (* the horizon given to the tuner's fit reaches the winner's fit UNCHANGED (the one and only call
+     the winner has received after fit), and it has no influence on the search *)
+  Theorem refit_passes_the_given_horizon sp st cands fhabs t : fit_ sp st cands true fhabs = Ok t ->
+    let nn := match sp with SWindow _ c => n c | SSingle nn _ _ => nn end in
+    tn_calls XV P t = [Fit (y_at tm yv (zrange 0 nn 1)) (x_at XV tm xv (zrange 0 nn 1)) fhabs] /\
+    forall fh' t', fit_ sp st cands true fh' = Ok t' -> tn_search XV P t' = tn_search XV P t.
+  Proof.
+    unfold tuner_fit. destruct (tune_ sp st cands) as [s|]; [|discriminate].
+    intro H. injection H as <-. split; [reflexivity|].
+    intros fh' t' H'. injection H' as <-. reflexivity.
+  Qed.
+
   (* without refit every delegating method raises NotFittedError, and the winner received nothing *)
   Theorem no_refit_raises_not_fitted sp st cands fhabs t : fit_ sp st cands false fhabs = Ok t ->
     tn_calls XV P t = [] /\ forall script, run_ t script = map (fun _ => ANotFitted) script.
